@@ -648,6 +648,9 @@ def oracle_C10(an):
     if an.uns_hold:
         return None
     v = []
+    # PRINT_CMD_LIST_OK: what follows is the command list, whole and in order (the rule of C19), also while
+    # unsolicited events are being sent
+    v += [x for x in (oracle_C19(an) or []) if x.startswith("command list")]
     all_edits = [bytes.fromhex(a) for o in an.scn.ops for a in re.findall(r"/e:x([0-9a-f]*)", o)]
     for f in ("c", "u"):
         it = fsm_items(an, f)
@@ -1506,13 +1509,25 @@ def oracle_C07(an):
             continue
         cmd = cl["cmd"]
         c = an.scn.cmds[cmd]
-        if fl.cot[cmd] or "r" in c.h or not vars_accessible(c, 1):
+        if fl.cot[cmd] or not vars_accessible(c, 1):
             continue
         if any(var.cb & 1 for var in c.vars):
             continue
         if any(e[0] == "N" for li in range(a, b) for e in an.ev[li]) or any("/p:" in an.op_of(li) for li in range(a, b)):
             continue
         cur = mem[a]
+        if "r" in c.h:
+            # a read handler decides what is sent, but every time it is invoked - the first round and every round
+            # after NEXT / DATA_NEXT - it is handed the automatic text of the current values, all variables in order
+            toks = [fmt_var(var, cur[var.slot]) for var in c.vars]
+            if all(x is not None for x in toks):
+                exp = c.name + b"=" + b",".join(toks)
+                if len(exp) < ccap and not any(l.m for l in an.lines[a:b]):
+                    for li in range(a, b):
+                        for e in an.ev[li]:
+                            if e[0] == "H" and e[1] == "r" and e[3] == "c" and e[2] == cmd and bytes(e[4]) != exp:
+                                v.append("read handler of command %d handed %r, the automatic text of the current values is %r" % (cmd, bytes(e[4]), exp))
+            continue
         parts = []
         bad = False
         for var in c.vars:
